@@ -131,6 +131,9 @@ func Slice[T any](s []T, f func(T) string) string {
 	if s == nil {
 		return "[]"
 	}
+	if len(s) == 0 {
+		return "[e]" // empty but not nil: not the zero value
+	}
 	r := "["
 	for i, e := range s {
 		if i > 0 {
